@@ -2,6 +2,7 @@ package wire
 
 import (
 	"encoding/binary"
+	"net"
 	"reflect"
 	"sync"
 
@@ -52,8 +53,25 @@ func admissibleRR(rr dns.RR) bool {
 		return admissibleSVCBValues(v.Value)
 	case *dns.HTTPS:
 		return admissibleSVCBValues(v.Value)
+	case *dns.A:
+		return writesItsIPv4(v.A)
+	case *dns.L32:
+		return writesItsIPv4(v.Locator32)
+	case *dns.IPSECKEY:
+		return v.GatewayType != dns.IPSECGatewayIPv4 || writesItsIPv4(v.GatewayAddr)
+	case *dns.AMTRELAY:
+		return v.GatewayType != dns.AMTRELAYIPv4 || writesItsIPv4(v.GatewayAddr)
 	}
 	return true
+}
+
+// writesItsIPv4 reports whether the library's IPv4 packing writes the four
+// octets it accounts for. For a 16-byte address that is not IPv4-mapped it
+// copies a nil To4() — nothing — and still advances the offset: in its own
+// freshly zeroed buffer that reads as 0.0.0.0, in pooled storage as four octets
+// of whatever was packed there before. Such a record is left to the library.
+func writesItsIPv4(ip net.IP) bool {
+	return len(ip) != net.IPv6len || ip.To4() != nil
 }
 
 func admissibleSVCBValues(values []dns.SVCBKeyValue) bool {
